@@ -64,9 +64,10 @@ class WFSA(base.WFSA):
         self = self.epsremove.renumber
 
         S = self.dim
-        start = np.full(S, self.R.zero)
-        arcs = {a: np.full((S, S), self.R.zero) for a in self.alphabet}
-        stop = np.full(S, self.R.zero)
+        # float arrays: `np.full(S, 0)` would be integer-typed and truncate weights
+        start = np.full(S, self.R.zero, dtype=float)
+        arcs = {a: np.full((S, S), self.R.zero, dtype=float) for a in self.alphabet}
+        stop = np.full(S, self.R.zero, dtype=float)
 
         for i, w in self.I:
             start[i] += w
